@@ -3,6 +3,7 @@ package rules
 import (
 	"fmt"
 	"go/token"
+	"go/types"
 	"sort"
 	"strings"
 
@@ -18,7 +19,7 @@ func checkC10(c *an.Ctx) {
 	c.Rule("C10.2", "configuration variables survive loading (E5): Config.merge has an explicit flow src.Variables → dst.Variables (mergo.Merge never overwrites the pre-populated field), and buildFromDefinition merges the definition's variables over the defaults")
 	c.Rule("C10.3", "`--` (E2/E4): taskArgs returns the unchanged tail of the arguments after `--`; every target loop leaves the loop on `--` before dispatching anything")
 	c.Rule("C10.5", "late resolution (E5 provenance): a loop that renders the values of a variable set in place (ranges over Container.Map(), RenderString on the value, Set of the result) works only on a container that is the fresh result of a Merge — the layered set built for one compilation — never on a container that is held in a field of the runner or the configuration: resolving a lower level alone would freeze references to names that a task or a stage defines later")
-	c.Rule("C10.4", "undefined variables (E3): RenderString executes a template built with option missingkey=error; in Execute the rendering of the command dominates the interpreter call and its error returns first; likewise the job dir in CompileCommand")
+	c.Rule("C10.4", "undefined variables (E3): RenderString executes a template built with option missingkey=error; in Execute the rendering of the command dominates the interpreter call and its error returns first; likewise the job dir in CompileCommand; the template is executed over the variable map RenderString was given")
 	c.Summaries = append(c.Summaries, "github.com/imdario/mergo v0.3.8 Merge without WithOverride never overwrites a destination field that is non-zero; NewConfig initialises Config.Variables")
 	c.NotDecided = append(c.NotDecided, "urfave/cli's own treatment of `--`", "two `--` in one command line (taskArgs keeps what follows the last one: observation)", "text/template semantics of missingkey=error (trusted)")
 	p := c.P
@@ -294,7 +295,7 @@ func baseVariables(c *an.Ctx, r *runnerRoles, rule string) {
 		var afterLoad func(site ssa.Instruction, depth int) bool
 		afterLoad = func(site ssa.Instruction, depth int) bool {
 			fn := site.Parent()
-			for _, ci := range an.CallsIn(fn, "(*internal/config.Loader).Load") {
+			for _, ci := range an.CallsIn(fn, "(internal/config.Loader).Load") {
 				if an.Dominates(ci, site) {
 					return true
 				}
@@ -700,7 +701,7 @@ func missingKey(c *an.Ctx, r *runnerRoles, cc *ssa.Function, rule string) {
 				if !ok {
 					return
 				}
-				sc, ok := an.IsCallTo(call, fnSet, "(*pkg/variables.Variables).Set")
+				sc, ok := an.IsCallTo(call, fnSet, "(pkg/variables.Variables).Set")
 				if !ok {
 					return
 				}
@@ -819,6 +820,27 @@ func missingKey(c *an.Ctx, r *runnerRoles, cc *ssa.Function, rule string) {
 		}
 		walk(recv)
 		c.Check(okOpt, rule, an.Short(rs)+":missingkey=error", ci.Pos(), "the executed template was built with option missingkey=error", "RenderString executes a template without option missingkey=error: an undefined variable renders as <no value> instead of failing")
+		// … over the variables it was handed: the data is RenderString's own map parameter (through helpers of the
+		// package, a defensive copy counts), not a map derived from it in which one name can stand for another
+		if len(ci.Common().Args) >= 3 {
+			data := ci.Common().Args[2]
+			own := false
+			bad := ""
+			for _, src := range p.DeepSources(data, 3, an.Outer(ci.Parent()) != rs) {
+				if mi, ok := src.(*ssa.MakeInterface); ok {
+					src = mi.X
+				}
+				src = an.ContentOf(src)
+				if prm, ok := src.(*ssa.Parameter); ok && prm.Parent() == rs {
+					if _, isMap := prm.Type().Underlying().(*types.Map); isMap {
+						own = true
+						continue
+					}
+				}
+				bad = an.Prov(src)
+			}
+			c.Check(own && bad == "", rule, an.Short(rs)+":data(Execute)", ci.Pos(), "the template is executed over the variable map RenderString was given", "the template is executed over "+bad+" instead of the variable map RenderString was given: a derived map can define names the layered variables do not define, or hide ones they do")
+		}
 		// and Execute's error is returned
 		retd, whyNot := returnedUpTo(ci, 3)
 		c.Check(retd, rule, an.Short(rs)+":err(Execute)", ci.Pos(), "a rendering error is returned", "a rendering error is dropped: "+whyNot)
@@ -967,7 +989,7 @@ func lateResolution(c *an.Ctx, rule string) {
 			if call.Call.IsInvoke() && call.Call.Method.Name() == "Map" && an.TypeIs(call.Call.Value.Type(), "pkg/variables", "Container") {
 				return call.Call.Value, true
 			}
-			if an.ShortCallee(&call.Call) == "(*pkg/variables.Variables).Map" {
+			if an.ShortCallee(&call.Call) == "(pkg/variables.Variables).Map" {
 				return call.Call.Args[0], true
 			}
 		}
@@ -1001,7 +1023,7 @@ func lateResolution(c *an.Ctx, rule string) {
 							renderParams = append(renderParams, nil)
 						}
 					}
-					if cc, ok := an.IsCallTo(call, fnSet, "(*pkg/variables.Variables).Set"); ok {
+					if cc, ok := an.IsCallTo(call, fnSet, "(pkg/variables.Variables).Set"); ok {
 						recv := cc.Value
 						if !cc.IsInvoke() {
 							recv = cc.Args[0]
@@ -1045,7 +1067,7 @@ func lateResolution(c *an.Ctx, rule string) {
 					if call.Call.IsInvoke() {
 						name = "(pkg/variables.Container)." + call.Call.Method.Name() // same spelling as fnMerge
 					}
-					if name == fnMerge || name == "(*pkg/variables.Variables).Merge" {
+					if name == fnMerge || name == "(pkg/variables.Variables).Merge" {
 						continue
 					}
 				}
